@@ -194,8 +194,8 @@ Print Assumptions reachable_states_satisfy_DepInv.
     [st]: evaluated on the observation of the state reached, [holds_C07] never answers 1 (deposit
     escrow <> sum of binding deposits) nor 2 (request escrow <> active fees + earned fees) — the
     boolean clauses the checker evaluates are re-proved over the observation lists from [DepInv]
-    and [EscInv].  Clause 3: next theorem.  PARTIAL: clauses 4-6 (they compare two consecutive
-    observations) are not covered. *)
+    and [EscInv].  Clause 3 and clause 5: next theorems.  PARTIAL: clauses 4 and 6 (balance movements
+    and slashing over an end-block) are not covered. *)
 Theorem model_passes_C07_clauses_1_2 :
   forall c steps h0 t0 l0 univ p st code nc cb,
     clean l0 -> NoDup (create_txhs steps) ->
@@ -218,6 +218,19 @@ Theorem model_passes_C07_clause_3 :
     holds_C07 c p st (obs_of univ code nc cb s) <> 3.
 Proof. exact model_passes_C07_clause_3_lemma. Qed.
 Print Assumptions model_passes_C07_clause_3.
+
+(** clause 5 (one model step from any state): a successful response moves tax = floor(fee * rate)
+    from the request escrow to the tax account in the fee denom, credits fee - tax to the
+    provider's tally, and changes no actor's balance.  Hypotheses: a non-negative tax rate, the
+    stored requests' fees are non-negative (invariant [EscInv] of reachable states) and the observed
+    universe covers the escrow and tax accounts in their fee denoms. *)
+Theorem model_passes_C07_clause_5 :
+  forall c s st univ pcode pnc pcb,
+    0 <= c_tax c ->
+    (forall rid q, get rid (reqs s) = Some q -> 0 <= q_fee q /\ In (TAX, q_fd q) univ /\ In (REQ, q_fd q) univ) ->
+    holds_C07 c (obs_of univ pcode pnc pcb s) st (obs_step univ c s st) <> 5.
+Proof. exact model_passes_C07_clause_5_lemma. Qed.
+Print Assumptions model_passes_C07_clause_5.
 
 (** ** the hypotheses are satisfiable, the conclusions are not vacuous: a history with a
     time-discounted binding (price 100, half price until t = 2000), a second flat binding
